@@ -9,6 +9,7 @@ import (
 	"encoding/json"
 	"fmt"
 	"math"
+	"net/url"
 	"os"
 	"reflect"
 	"runtime/debug"
@@ -147,6 +148,108 @@ func setField(d M, f string, v any) {
 	} else {
 		d[f] = v
 	}
+}
+
+const identity = "https://h1.example/objects/p"
+
+// identify gives the document (and the post inside an activity) an id on h1.example and
+// makes the entries of its replies name it as their parent.
+func identify(d M) bool {
+	post, inner := d, false
+	if o, ok := d["object"].(M); ok {
+		post, inner = o, true
+	}
+	rep, ok := post["replies"].(M)
+	if !ok {
+		return false
+	}
+	post["id"] = identity
+	// an identified post is only accepted with creators of its own origin
+	for _, holder := range []M{post, d} {
+		for _, k := range []string{"attributedTo", "actor"} {
+			if m, ok := holder[k].(M); ok {
+				m["id"] = "https://h1.example/users/" + k
+			}
+		}
+	}
+	if inner {
+		d["id"] = "https://h1.example/activities/a"
+	}
+	for _, k := range []string{"items", "orderedItems"} {
+		if l, ok := rep[k].([]any); ok {
+			for _, it := range l {
+				if m, ok := it.(M); ok {
+					m["inReplyTo"] = identity
+				}
+			}
+			// one entry that answers something else, one whose parent is given as an object
+			rep[k] = append(l, M{"type": "Note", "content": "other", "inReplyTo": "https://h1.example/objects/q"}, M{"type": "Note", "content": "embedded", "inReplyTo": M{"type": "Note", "id": identity}})
+		}
+	}
+	return true
+}
+
+// nestedPaths lists the paths of all objects below d, down to the given depth.
+func nestedPaths(v any, prefix []any, depth int) [][]any {
+	var out [][]any
+	if depth == 0 {
+		return nil
+	}
+	switch t := v.(type) {
+	case M:
+		var keys []string
+		for k := range t {
+			keys = append(keys, k)
+		}
+		sortStrings(keys)
+		for _, k := range keys {
+			p := append(append([]any{}, prefix...), k)
+			switch c := t[k].(type) {
+			case M:
+				out = append(out, p)
+				out = append(out, nestedPaths(c, p, depth-1)...)
+			case []any:
+				out = append(out, nestedPaths(c, p, depth)...)
+			}
+		}
+	case []any:
+		for i, c := range t {
+			p := append(append([]any{}, prefix...), i)
+			if m, ok := c.(M); ok {
+				out = append(out, p)
+				out = append(out, nestedPaths(m, p, depth-1)...)
+			}
+		}
+	}
+	return out
+}
+
+func at(v any, path []any) any {
+	for _, k := range path {
+		switch t := k.(type) {
+		case string:
+			v = v.(M)[t]
+		case int:
+			v = v.([]any)[t]
+		}
+	}
+	return v
+}
+
+func pathString(path []any) string {
+	var b strings.Builder
+	for i, k := range path {
+		switch t := k.(type) {
+		case string:
+			if i > 0 {
+				b.WriteString(".")
+			}
+			b.WriteString(t)
+		case int:
+			fmt.Fprintf(&b, "[%d]", t)
+		}
+	}
+	return b.String()
 }
 
 // ---------------------------------------------------------------- exercising an item
@@ -332,6 +435,81 @@ func shapeStreams(thorough bool) []stream {
 			runCase(r, c, func() { exercise(pub.New(copyDoc(d), nil), []int{-1, 0, 1, 9, 80}) })
 		}})
 	}
+	// deviation 1 inside a nested object: every object reachable from a primary baseline
+	// (creator, parent, replies and their entries, pages, links, ...) has each of its fields and
+	// the fields its kind looks at replaced by every value. The identified variant gives the
+	// post an id that its replies name, so that the code behind the parent check is reached.
+	for _, b := range baselines() {
+		if !map[string]bool{"actor": true, "post:Note": true, "activity:Announce": true, "collection:OrderedCollection": true, "link:Link": true}[b.Kind] {
+			continue
+		}
+		for _, identified := range []bool{false, true} {
+			doc := copyDoc(b.Doc)
+			kind := b.Kind
+			if identified {
+				if !identify(doc) {
+					continue
+				}
+				kind += "+id"
+				// the variant is only worth anything if the identified document is accepted and its
+				// replies are shown as posts
+				src, _ := url.Parse(identity)
+				var shown pub.Tangible
+				switch t := pub.New(copyDoc(doc), src).(type) {
+				case *pub.Post:
+					shown = t
+				case *pub.Activity:
+					shown = t.Target()
+				}
+				ok := false
+				if shown != nil && shown.Children() != nil {
+					items, _, _ := shown.Children().Harvest(1, 0)
+					if len(items) == 1 {
+						_, ok = items[0].(*pub.Post)
+					}
+				}
+				if !ok {
+					ev.Fatal("C06: the identified baseline %s does not show its replies as posts", kind)
+				}
+			}
+			paths := nestedPaths(doc, nil, 3)
+			type target struct {
+				path  []any
+				field string
+			}
+			var targets []target
+			for _, p := range paths {
+				m := at(doc, p).(M)
+				seen := map[string]bool{}
+				for f := range m {
+					seen[f] = true
+				}
+				for _, f := range []string{"id", "type", "inReplyTo", "attributedTo", "replies", "content", "mediaType", "url", "href", "next", "first", "items", "orderedItems", "object", "actor", "name"} {
+					seen[f] = true
+				}
+				var fs []string
+				for f := range seen {
+					fs = append(fs, f)
+				}
+				sortStrings(fs)
+				for _, f := range fs {
+					targets = append(targets, target{p, f})
+				}
+			}
+			nv := int64(len(values(doc)))
+			out = append(out, stream{"shape-nested:" + kind, int64(len(targets)) * nv, func(r *ev.Report, i int64) {
+				tg, vi := targets[i/nv], i%nv
+				d := copyDoc(doc)
+				setField(at(d, tg.path).(M), tg.field, values(doc)[vi])
+				c := caseDesc{Class: "json-nested:" + strings.SplitN(kind, ":", 2)[0] + ":" + pathString(tg.path) + "." + tg.field, Doc: d}
+				var src *url.URL
+				if identified {
+					src, _ = url.Parse(identity)
+				}
+				runCase(r, c, func() { exercise(pub.New(copyDoc(d), src), []int{1, 9, 80}) })
+			}})
+		}
+	}
 	// top-level non-objects and unknown types
 	tops := []any{nil, true, 5.0, "x", "", "https://nowhere.example/x", []any{}, []any{M{"type": "Note"}}, M{}, M{"type": "Unknown"}, M{"type": 5.0}, M{"type": ""}, M{"type": "Tombstone"}, M{"id": "https://nowhere.example/y"}, deepArray(100)}
 	out = append(out, stream{"top-level", int64(len(tops)), func(r *ev.Report, i int64) {
@@ -481,10 +659,11 @@ func chainStreams(thorough bool) []stream {
 func main() {
 	r := ev.New("C06", "exploration",
 		"(1) JSON shapes: 21 baseline documents (actor, 7 post types, 4 activities, 4 collection kinds, 5 link kinds) with every field replaced by each of 31 values (absent, null, booleans, numbers incl. negative/fractional/2^53+1/2^63/2^64/1e300, strings incl. one with blank lines, arrays, objects, self-nesting, 40-deep array), "+
-			"all single deviations, and all pairs of fields over 8 values on one baseline per kind (quick) / over 31 values on one baseline per kind and 8 values on the others (thorough); (2) markup forests as post bodies and (the <=2-node and line-sequence spaces) as actor bios and announced actors (HTML <=2 nodes over 33 labels, 3 nodes over 14 labels (quick) / over all 33 labels (thorough); gemtext/Markdown/plaintext line sequences); (3) nesting chains of 15 element families x inner content, "+
+			"all single deviations at the top level, all single deviations inside every nested object (creator, parent, replies and their entries, pages, links; to depth 3) of five primary baselines with and without an id that the replies name as their parent, and all pairs of fields over 8 values on one baseline per kind (quick) / over 31 values on one baseline per kind and 8 values on the others (thorough); (2) markup forests as post bodies and (the <=2-node and line-sequence spaces) as actor bios and announced actors (HTML <=2 nodes over 33 labels, 3 nodes over 14 labels (quick) / over all 33 labels (thorough); gemtext/Markdown/plaintext line sequences); (3) nesting chains of 15 element families x inner content, "+
 			"depths in increasing order up to 120 while the document stays < 4 kB; every case built through pub.New and followed by String/Preview at widths {-5,-1,0,1,2,3,4,5,8,9,80,200}, Name, Timestamp, Parents(0..3), Children().Harvest(0..3,0..2), SelectLink(min,-1,0,1,2,3,max), Media/ProfilePic/Banner/Creators/Recipients/Actor/Target; "+
 			"distinct_nontrivial = cases whose document differs from its baseline")
-	w := world.New() // every fetch is answered with 404
+	w := world.New() // every fetch is answered with 404, except the identified post of the nested part
+	w.Put(identity, world.JSON(M{"type": "Note", "id": identity, "content": "the identified post"}))
 	w.Install()
 	uidrv.Reset()
 	var streams []stream
@@ -503,6 +682,14 @@ func main() {
 			i -= s.Size
 		}
 		panic("index out of range")
+	}
+	if os.Getenv("VERIF_C06_LIST") != "" {
+		var off int64
+		for _, s := range streams {
+			fmt.Printf("%8d %8d %s\n", off, s.Size, s.Name)
+			off += s.Size
+		}
+		os.Exit(0)
 	}
 	if *ev.FlagReplay != "" {
 		var d struct {
